@@ -48,7 +48,9 @@ theorem c16_connect_iff (d : Diagram) (a p b q : Nat) :
     exact hd
 
 /-- Whatever sequence of `add_module` / `connect` calls is made on an empty diagram (calls that raise leave it
-    unchanged): module names are unique, and every wire joins existing ports that satisfy the flow rule. -/
+    unchanged), interleaved with any number of direct removals from the public `wires` list (`wires.remove(w)`:
+    re-wiring is a removal followed by a `connect`) and re-orderings of it: module names are unique, and every
+    wire joins existing ports that satisfy the flow rule. -/
 theorem c16_built_diagrams_accepted (ops : List BuildOp) :
     (Diagram.build ops).WF ∧ (Diagram.build ops).Accepted :=
   foldl_apply_preserves ops {} (by simp [Diagram.WF]) (by intro w hw; simp at hw)
@@ -319,7 +321,8 @@ theorem c16_register_module (d : Diagram) (H : Nat → Option Handler) (n : Nat)
 
 /-! ## end to end: diagrams built through the public API, no hypothesis left -/
 
-/-- Whatever sequence of `add_module` / `connect` calls built the diagram, whatever the handlers do, whatever the
+/-- Whatever sequence of `add_module` / `connect` calls — and of wires taken out of `diagram.wires` again, i.e.
+    re-wirings between two runs — built the diagram, whatever the handlers do, whatever the
     external inputs are and whether or not `enforce_static_checks` is on: in every run, successful or raising,
     (1) every value recorded on an input port and every value any handler is shown has that port's data type and at
     least its required integrity, (2) every handler invocation comes after an invocation of each module wired into
@@ -345,6 +348,39 @@ theorem c16_api_built_diagrams_end_to_end (ops : List BuildOp) (H : Nat → Opti
   obtain ⟨n1, n2⟩ := c16_no_partially_wired_module_runs d hwf H ext enforce
   exact ⟨t1, t2, c16_every_call_after_its_feeders d hwf hacc.wiresExist H ext enforce, n1, n2,
     fun c hc hbad => c16_mislabelled_output_rejected d hwf H ext enforce c hc hbad⟩
+
+/-- The public containers of an accepted diagram edited directly between two runs: taking a wire out
+    (`wires.remove`), re-ordering the wires, overwriting a wire slot with a wire that obeys the flow rule on the
+    current declarations, and deleting a module that no wire touches all yield a diagram that is again accepted
+    (unique names, every wire between existing ports and obeying the flow rule) — so every theorem about accepted
+    diagrams speaks about the run AFTER the edit as well, on the wires as they are then. -/
+theorem c16_rewired_diagrams_stay_accepted (d : Diagram) (hwf : d.WF) (hacc : d.Accepted) :
+    (∀ w, (d.removeWire w).WF ∧ (d.removeWire w).Accepted) ∧
+    (d.reverseWires.WF ∧ d.reverseWires.Accepted) ∧
+    (∀ i w, d.WireOK w → (d.setWire i w).WF ∧ (d.setWire i w).Accepted) ∧
+    (∀ n, (∀ w ∈ d.wires, w.srcM ≠ n ∧ w.dstM ≠ n) → (d.delModule n).WF ∧ (d.delModule n).Accepted) :=
+  ⟨fun w => removeWire_preserves w hwf hacc, reverseWires_preserves hwf hacc,
+   fun i w hw => setWire_preserves i w hw hwf hacc, fun n hfree => delModule_preserves n hfree hwf hacc⟩
+
+/-- Re-wiring an input port: the wire `w` is taken out of an accepted diagram and `connect` accepts another source
+    `a.p` for the same destination port.  In every run of the re-wired diagram — successful or raising, any handlers,
+    any external inputs, either enforcement setting, and whatever ran before on the old wiring, `execute` being a
+    function of the diagram as it is NOW — whenever the destination module is invoked, the NEW source module has been
+    invoked before and the value on the port is what that invocation returned for `a.p`; and a value of the old
+    source can only be there if the old wire is still in the list a second time. -/
+theorem c16_rewired_run_follows_current_wires (d : Diagram) (hwf : d.WF) (hacc : d.Accepted) (w : Wire)
+    (a p : Nat) (d' : Diagram) (h : (d.removeWire w).connect a p w.dstM w.dstP = .ok d')
+    (H : Nat → Option Handler) (ext : List (Nat × List (Nat × Val))) (enforce : Bool) :
+    d'.WF ∧ d'.Accepted ∧ d'.wires = d.wires.erase w ++ [⟨a, p, w.dstM, w.dstP⟩] ∧
+    ∀ pre c post, (execute d' H ext enforce).calls = pre ++ c :: post → c.name = w.dstM →
+      ∃ s ∈ pre, FedBy d' H ⟨a, p, w.dstM, w.dstP⟩ s c := by
+  obtain ⟨hwf1, hacc1⟩ := removeWire_preserves w hwf hacc
+  obtain ⟨hwf', hacc'⟩ := connect_preserves h hwf1 hacc1
+  have hd' := (c16_connect_iff (d.removeWire w) a p w.dstM w.dstP).2.1 d' h
+  have hwires : d'.wires = d.wires.erase w ++ [⟨a, p, w.dstM, w.dstP⟩] := by rw [hd']; rfl
+  refine ⟨hwf', hacc', hwires, fun pre c post hc hn => ?_⟩
+  exact c16_every_call_after_its_feeders d' hwf' hacc'.wiresExist H ext enforce pre c post hc
+    ⟨a, p, w.dstM, w.dstP⟩ (by rw [hwires]; simp) hn.symm
 
 /-- What the pre-flight checks of `execute` demand, in the words of the property: they pass exactly when every
     wire starts at an existing module, no input port has two wires, no wired port is also given an external value,
@@ -643,6 +679,31 @@ example : ∃ mi, extPhase exD exExt (fun _ => []) = .ok mi ∧ Schedulable exD 
   intro a ha
   have := reaches_idx (order := [0, 1, 2]) (d := exD) (by decide) ha
   omega
+
+/-- re-wiring between two runs (the shape of seeded change s1): source 0 → sink 1, module 2 an alternative source.
+    After `wires.remove(0.0 → 1.0)` and `connect(2, 0, 1, 0)` the diagram has as many modules and wires as before;
+    the next run schedules the sink after module 2 and delivers module 2's output to it
+    (`c16_rewired_run_follows_current_wires`, `c16_api_built_diagrams_end_to_end` with a `removeWire` step). -/
+private def exRewOps : List BuildOp :=
+  [.addModule ⟨0, [], [(0, ⟨0, 1⟩)], []⟩, .addModule ⟨1, [(0, ⟨0, 0⟩)], [], []⟩, .addModule ⟨2, [], [(0, ⟨0, 1⟩)], []⟩,
+   .connect 0 0 1 0]
+
+private def exRewH : Nat → Option Handler := fun n =>
+  if n = 1 then some (fun _ => .ret []) else some (fun _ => .ret [(0, .raw (10 + n))])
+
+example : view (execute (Diagram.build exRewOps) exRewH [] true) = (none, [0, 1, 2], [[], [(0, ⟨0, 1, 10⟩)], []], [0, 1, 2]) ∧
+    view (execute (Diagram.build (exRewOps ++ [.removeWire ⟨0, 0, 1, 0⟩, .connect 2 0 1 0])) exRewH [] true) =
+      (none, [0, 2, 1], [[], [], [(0, ⟨0, 1, 12⟩)]], [0, 2, 1]) ∧
+    (Diagram.build (exRewOps ++ [.removeWire ⟨0, 0, 1, 0⟩, .connect 2 0 1 0])).wires = [⟨2, 0, 1, 0⟩] :=
+  ⟨by decide, by decide, by decide⟩
+
+example : ((Diagram.build exRewOps).removeWire ⟨0, 0, 1, 0⟩).connect 2 0 ((⟨0, 0, 1, 0⟩ : Wire).dstM)
+    ((⟨0, 0, 1, 0⟩ : Wire).dstP) = .ok ⟨(Diagram.build exRewOps).modules, [⟨2, 0, 1, 0⟩]⟩ := rfl
+
+/-- the other three edits of `c16_rewired_diagrams_stay_accepted` on the same diagram: a slot overwritten with an
+    allowed wire, the unused module deleted -/
+example : (Diagram.build exRewOps).WireOK ⟨2, 0, 1, 0⟩ ∧ ∀ w ∈ (Diagram.build exRewOps).wires, w.srcM ≠ 2 ∧ w.dstM ≠ 2 :=
+  ⟨⟨⟨0, 1⟩, ⟨0, 0⟩, by decide, by decide, rfl, by decide⟩, by decide⟩
 
 example : exD.requiredCaps = [3, 1, 0] := by decide
 
